@@ -144,6 +144,8 @@ Proof.
     by (unfold chs1; destruct (negb first && blank c0); [inversion F; assumption | exact F]).
   assert (L1 : (length (concat chs1) <= length (concat (c0 :: r0)))%nat)
     by (unfold chs1; destruct (negb first && blank c0); [simpl; rewrite app_length; lia | lia]).
+  assert (Lc0 : (0 < length c0)%nat) by (destruct A as ((Hn & _) & _); destruct c0; [congruence | simpl; lia]).
+  assert (Lf : (0 < f)%nat) by (simpl in L; rewrite app_length in L; lia).
   rewrite <- E1. clearbody chs1. clear E1.
   destruct (fill width 0 chs1) as [cur rest] eqn:EF.
   pose proof (fill_app _ _ _ _ _ EF) as Eapp.
@@ -157,24 +159,27 @@ Proof.
     assert (length c <= width)%nat.
     { rewrite Eapp in F1. apply Forall_app in F1 as (_ & F2). inversion F2; assumption. }
     destruct (width <? length c)%nat eqn:E; [apply Nat.ltb_lt in E; lia | reflexivity]. }
-  rewrite NoLong. clear NoLong.
+  cbv zeta in NoLong. rewrite NoLong. clear NoLong.
   rewrite Eapp in A1. apply alt_app in A1 as (Acur & Arest).
   assert (Frest : Forall (fun ch => (length ch <= width)%nat) rest)
     by (rewrite Eapp in F1; apply Forall_app in F1 as (_ & F2); exact F2).
   assert (Lrest : (length (concat rest) < f)%nat).
   { destruct chs1 as [|c1 r1].
-    - simpl in EF. inversion EF; subst. simpl in *. lia.
+    - simpl in EF. inversion EF; subst. simpl. exact Lf.
     - assert (length c1 <= width)%nat by (inversion F1; assumption).
-      destruct (fill_first width c1 r1 H) as (a & b & E2). rewrite E2 in EF. inversion EF; subst.
+      destruct (fill_first width c1 r1 H) as (a & b & E2). pose proof (eq_trans (eq_sym EF) E2) as X. inversion X; subst.
       assert (c1 <> []) by (destruct Acur as ((Hn & _) & _); exact Hn).
       assert (0 < length c1)%nat by (destruct c1; [congruence | simpl; lia]).
       rewrite Eapp in L1. simpl in L1, L. rewrite !app_length in L1. rewrite concat_app, app_length in L1.
       rewrite app_length in L. lia. }
   assert (Ecw : cw (drop_last_blank cur) = cw cur /\ alt (drop_last_blank cur)).
-  { destruct (drop_last_blank_spec cur) as [->|(x & E & B)]; [split; [reflexivity | exact Acur]|].
-    split.
-    - rewrite E at 2. rewrite cw_app. unfold cw at 3. cbn [filter]. unfold nb at 2. rewrite B. simpl. rewrite app_nil_r. reflexivity.
-    - rewrite E in Acur. apply alt_app in Acur as (Ac & _). exact Ac. }
+  { remember (drop_last_blank cur) as d eqn:Hd.
+    destruct (drop_last_blank_spec cur) as [E|(x & E & B)]; rewrite <- Hd in E.
+    - rewrite E. split; [reflexivity | exact Acur].
+    - assert (Hx : cw [x] = []) by (unfold cw; simpl; unfold nb; rewrite B; reflexivity).
+      split.
+      + rewrite E, cw_app, Hx, app_nil_r. reflexivity.
+      + rewrite E in Acur. apply alt_app in Acur as (Ac & _). exact Ac. }
   destruct Ecw as (Ecw & Acur3). rewrite Eapp, cw_app, <- Ecw.
   destruct (drop_last_blank cur) as [|x xs] eqn:E3.
   - simpl. apply IH; assumption.
